@@ -503,11 +503,17 @@ they are listed in §8 with the property whose check found them.
   modelled. `Amqp.Dispose` starts after the sort and the filter of `dispose_all` (the runs apply both).
 * Two seeded changes of the fifth round lay beyond the reassembly model as it was: an aborted transfer in the
   middle of a transactional multi-frame post (the listener's `TxnSession` keeps the earlier frames and replays
-  them at commit) — caught by runs only (an aborted attempt before a post in `txn`), that path has no Lean model
-  yet — and a delivery sent again with `resume = true` after a detach-and-resume whose last frame omits the
-  delivery-tag. The second path is modelled since (`Amqp.Reasm.stepR`, the arms of `on_resuming_transfer`
-  regenerated as `source_resume_shape`, theorems `resume_flag_immaterial`, `reasm_once_resumed`,
-  `resumed_other_delivery`); what the resuming attach exchanges (the unsettled maps) is not.
+  them at commit), and a delivery sent again with `resume = true` after a detach-and-resume whose last frame
+  omits the delivery-tag. Both paths are modelled since: `Amqp.Reasm.stepR` (the arms of
+  `on_resuming_transfer` regenerated as `source_resume_shape`; theorems `resume_flag_immaterial`,
+  `reasm_once_resumed`, `resumed_other_delivery`) and `Amqp/TxnRoute.lean` (the decision of
+  `TxnSession::on_incoming_transfer` per transfer and its table `incomplete_posts`, regenerated as
+  `source_route_shape`; theorems `post_withheld_whole`, `withheld_in_order`, `abort_ends_the_post`,
+  `after_abort_next_is_plain`, `other_links_untouched`). Writing the second model turned up a defect (an abort
+  frame that says `more` left its link marked as in the middle of a post; fixed, 2716544, corpus C18/004).
+  Not modelled: what the resuming attach exchanges (the unsettled maps), and in `TxnRoute` whether the named
+  transaction is live (that is `Amqp.Txn`, at the level of whole posts) — the two models are not yet composed
+  into one.
 * The typed layer models the 32 list-encoded composites, the unions built from them, and messages
   (`Amqp/Message.lean`: sections in the order of the standard, the three body kinds, batches of data
   and amqp-sequence sections; `message_roundtrip`). `Body::Empty` is not a body of the AMQP type
